@@ -37,21 +37,37 @@ GLUE = [" ", ".", ",", "\n", "(", ")", "x", "/", ":", "7.5/", "CVSS:3.1/", "CVSS
 ALPHABET = [V2MIN, V2OPT, V2PERM, V30, V31, V31OPT, V31X, V40, V2FULL, V31FULL] + NEAR + GLUE + ["_", "0", "²", "[", "]", "`", "^", "\\", "@", "'"]
 
 
+EXT = CLASS | set("3.01")      # a valid v2/v3 vector consists of these characters only
+
+
 def required(text):
-    """Model keys of every valid v2/v3 vector occurring delimited in the text."""
+    """Model keys of every valid v2/v3 vector occurring delimited in the text. Candidates are
+    confined to maximal runs of characters a vector can contain, so the scan is linear in the
+    number of runs (long texts) and quadratic only inside one run."""
     n = len(text)
-    starts = [i for i in range(n) if (i == 0 or text[i - 1] not in CLASS)]
-    ends = [j for j in range(1, n + 1) if (j == n or text[j] not in CLASS)]
     out = {}
-    for i in starts:
-        for j in ends:
-            if j - i < 26:
-                continue
-            s = text[i:j]
-            for fam in ("2", "3.0", "3.1"):
-                verdict, got = T.parse(fam, s)
-                if verdict == "ACCEPT":
-                    out[T.model_key(fam, got)] = s
+    i = 0
+    while i < n:
+        if text[i] not in EXT:
+            i += 1
+            continue
+        j = i
+        while j < n and text[j] in EXT:
+            j += 1
+        # run text[i:j]
+        starts = [k for k in range(i, j) if (k == 0 or text[k - 1] not in CLASS) and text[k] in CLASS]
+        ends = [k for k in range(i + 1, j + 1) if (k == n or text[k] not in CLASS) and text[k - 1] in CLASS]
+        if len(starts) * len(ends) <= 4000:
+            for a in starts:
+                for b in ends:
+                    if b - a < 26 or b - a > 130:
+                        continue
+                    sub = text[a:b]
+                    for fam in ("2", "3.0", "3.1"):
+                        verdict, got = T.parse(fam, sub)
+                        if verdict == "ACCEPT":
+                            out[T.model_key(fam, got)] = sub
+        i = j
     return out
 
 
@@ -82,6 +98,15 @@ def judge(text):
             return "returned a CVSS%d object built from %r, which is not a valid v%d vector" % (major, v, major), None
         fam = T.family_of(major, v)
         keys.append(T.model_key(fam, T.parse(fam, v)[1]))
+    for o in got:
+        try:
+            twin = type(o)(o.vector)
+            if (o.scores(), o.severities(), o.clean_vector(), o.rh_vector(), o.as_json(sort=True, minimal=True)) != \
+                    (twin.scores(), twin.severities(), twin.clean_vector(), twin.rh_vector(),
+                     twin.as_json(sort=True, minimal=True)) or not (o == twin) or hash(o) != hash(twin):
+                return "the object returned for %r behaves unlike one built directly from that substring" % (o.vector,), None
+        except Exception as e:  # noqa
+            return "an accessor of a returned object raised %s: %s" % (type(e).__name__, e), None
     if len(set(keys)) != len(keys):
         return "returned two equal objects", None
     for a, b in itertools.combinations(got, 2):
@@ -125,6 +150,28 @@ def check_text(acc, text):
             acc["samples"].append({"text": text, "returned": obs[0], "required": obs[1]})
 
 
+def _long_task(_):
+    """Scale: long texts, many vectors, long runs of vector-like characters."""
+    import random
+    acc = sweep.new_acc()
+    vs = [V2MIN, V2OPT, V2PERM, V30, V31, V31OPT, V31X, V2FULL, V31FULL]
+    texts = [
+        " ".join(vs * 60),                                   # 540 vectors, 7 distinct
+        "\n".join("%d. %s," % (i, vs[i % len(vs)]) for i in range(400)),
+        "A" * 200000, ":" * 50000 + "/" * 50000, ("AV:N/" * 30000),
+        "x" * 30 + " " + V31 + " " + "y" * 100000 + " " + V2MIN,
+        (V2MIN + "/") * 300 + " " + V2MIN,
+        " ".join("AV:N/AC:L/Au:N/C:%s/I:%s/A:%s/E:%s/RL:%s" % (c, i, a, e, rl) for c in "NPC" for i in "NPC"
+                 for a in "NPC" for e in ("U", "POC", "F", "H", "ND") for rl in ("OF", "TF", "W", "U")),  # 540 distinct v2
+        " ".join("CVSS:3.%d/AV:%s/AC:%s/PR:%s/UI:N/S:%s/C:H/I:L/A:N" % (mi, av, ac, pr, sc) for mi in (0, 1)
+                 for av in "NALP" for ac in "LH" for pr in "NLH" for sc in "UC") * 3,                     # 96 distinct v3, thrice
+        V31FULL + "/" + "A" * 5000, "CVSS:3.1/" * 2000 + V31[9:],
+    ]
+    for t in texts:
+        check_text(acc, t)
+    return acc
+
+
 def _edit_task(texts):
     acc = sweep.new_acc()
     repl = "N:/ x3.1CA\n"
@@ -149,6 +196,7 @@ def run(ctx, res):
              V40 + " " + V2OPT, "CVSS:3." + V2MIN + " " + V30, V2OPT + "\n" + V2OPT + " " + V31OPT,
              "é" + V30 + "é" + V2PERM]
     accs += core.task_map(_edit_task, [[e] for e in edits])
+    accs += core.task_map(_long_task, [0])
     extra = sweep.new_acc()
     for text in ["", " ", "A" * 26, ":" * 30, "/" * 26, "CVSS:3.1/" * 5, V2MIN * 3, (V2MIN + " ") * 20,
                  "CVSS:3.1/" + "A" * 25, "CVSS:3.1/" + "A" * 26, V31[:-1], V2MIN[:-1], V2MIN + "x"]:
